@@ -63,13 +63,13 @@ def frames(case):
     kind = case["kind"]
     cells = [tuple(c) for c in case["cells"]]
     nan = tuple(case["nan"]) if case.get("nan") is not None else None
-    vals = space.raw_values(kind, len(cells), case.get("seed", 0), case.get("scale"))
+    vals = list(case["values"]) if case.get("values") is not None else space.raw_values(kind, len(cells), case.get("seed", 0), case.get("scale"))
     xs = []
     for v, c in zip(vals, cells):
         xs += [v] * (c[0] + c[1])
     if nan is not None:
         xs += [np.nan] * (nan[0] + nan[1])
-    col = pd.Series(xs, dtype=float if kind == "QNT" else object)
+    col = pd.Series(xs, dtype=case.get("xdtype") or (float if kind == "QNT" else object))
     X = pd.DataFrame({"f": col})
     comp = companion_column(case.get("companion"), len(xs))
     if comp is not None:
@@ -96,7 +96,7 @@ def build(case, vals, comp):
         quanti.append("f")
     elif kind == "ORD":
         ordi.append("f")
-        vo["f"] = list(vals)
+        vo["f"] = [v if isinstance(v, str) else space.str_form(v) for v in vals]
     else:
         quali.append("f")
     if comp is not None:
